@@ -687,3 +687,13 @@ package runtime
 //@ ensures C05 empty: len(rs) == 0 ==> result.len == 0 && result.data == nil
 //@ ensures C05 length-bounds: len(rs) > 0 ==> len(rs) <= result.len && result.len <= 4*len(rs)
 //@ modifies nothing
+
+//@ func StringToRunes
+//@ props C05
+//@ requires sane: len(s) >= 0 && len(s) <= 1<<40 && (len(s) > 0 ==> valid(s.data, len(s)))
+//@ loop 1 invariant progress: 0 <= i && i <= len(s) && index <= uint(i) && (i > 0 ==> index >= 1)
+//@ loop 1 invariant buffer: len(data) == len(s) && cap(data) == len(s) && mine(data.data, 4*len(s))
+//@ loop 1 decreases len(s) - i
+//@ ensures C05 empty: len(s) == 0 ==> len(result) == 0 && result.data == nil
+//@ ensures C05 length-bounds: len(s) > 0 ==> 1 <= len(result) && len(result) <= len(s) && cap(result) == len(result)
+//@ modifies nothing
